@@ -11,18 +11,71 @@ from ..drivers import simdrv, cmiodrv
 PID = 'C19'
 
 
+KINDS = {'py48': '48', 'c48': '48', 'pycm48': '48', 'py128': '128', 'c128': '128', 'c128odd': '128', 'pycm128odd': '128',
+         'c128even': 'zero'}
+
+
+def _tables_job(_):
+    return cmiodrv.delay_tables()
+
+
+def judge_delay_tables(rep, tabs, wd):
+    """Pattern D: every frame position of both machines, enumerated by TLC, looked up in the implementation's tables."""
+    tables = [{'name': n, 'kind': KINDS[n], 'n': len(tabs[n]), 'data': tabs[n]} for n in sorted(tabs)]
+    for t in tables:
+        if t['n'] != (69888 if t['kind'] == '48' else 70908):
+            rep.violation('delay-table:%s:size' % t['name'], 'wait-state table %s has %d entries' % (t['name'], t['n']), None)
+            return
+    path = os.path.join(wd, 'delaytables.json')
+    with open(path, 'w') as f:
+        json.dump(tables, f, separators=(',', ':'))
+    r = tlc.run(os.path.join(tlc.SPEC, 'z80'), 'DelayTables', 'DelayTables.cfg', env={'TABLES': path}, tag='DelayTables',
+                timeout=1800, heap='8g')
+    tlc.check_machinery(r, 'DelayTables')
+    total = sum(t['n'] for t in tables)
+    if r.distinct != 2 * total:
+        raise MachineryError('DelayTables: expected %d states, got %d\n%s' % (2 * total, r.distinct, r.out[-2000:]))
+    rep.add_tlc(r, 'DelayTables', traces=len(tables))
+    rep.extra['delay_table_entries_enumerated_by_tlc'] = total
+    rep.extra['delay_tables'] = [t['name'] for t in tables]
+    for code, clause in r.fails:
+        k, t = code // 1000000 - 1, code % 1000000
+        tb = tables[k]
+        if clause == 'spec-pattern':
+            raise MachineryError('DelayTables: the specification violates its own pattern facts at t=%d (%s)' % (t, tb['kind']))
+        rep.violation('delay-table:%s:t=%d' % (tb['name'], t),
+                      'wait-state delay of %s at frame position %d is %d, the ULA pattern gives another value'
+                      % (tb['name'], t, tb['data'][t]), {'table': tb['name'], 't': t, 'value': tb['data'][t]})
+
+
 def run(tier):
     rep = Report(PID, tier)
     wd = workdir('c19')
     sd = seed()
     cbuild.build()
-    variants = 8 if tier == 'quick' else 160
+    variants = 6 if tier == 'quick' else 160
+    v128, nlay = (2, 2) if tier == 'quick' else (60, 4)
     n = len(simdrv.slots())
     chunks = [(sd * 4099 + k, list(range(k, n, 16)), variants) for k in range(16)]
+    chunks128 = [(sd * 8191 + 77 + k, list(range(k, n, 15)), v128, nlay) for k in range(15)]
     with mp.get_context('fork').Pool(16) as pool:
+        tab_job = pool.map_async(_tables_job, [0])
+        parts128 = pool.map_async(cmiodrv.gen_and_run128, chunks128)
         parts = pool.map(cmiodrv.gen_and_run, chunks)
+        parts128 = parts128.get()
+        tabs = tab_job.get()[0]
+    judge_delay_tables(rep, tabs, wd)
     cases = [c for p in parts for c in p]
-    log('C19: %d contended step cases' % len(cases))
+    n48 = len(cases)
+    cases += [c for p in parts128 for c in p]
+    log('C19: %d contended step cases (%d on the 128K layout)' % (len(cases), len(cases) - n48))
+    rep.extra['cases_48k'] = n48
+    rep.extra['cases_128k'] = len(cases) - n48
+    odd_hi = sum(1 for c in cases if c['m128'] and c['odd'] and c['obs'][1]['r'][25] > c['obs'][0]['r'][25]
+                 and (c['r'][24] >= 0xC000))
+    rep.extra['cases_128k_delayed_with_pc_in_odd_bank'] = odd_hi
+    if odd_hi < 20:
+        raise MachineryError('vacuous C19 run: only %d delayed cases with PC in an odd bank at 0xC000' % odd_hi)
     delayed = 0
     for b in range(0, len(cases), 40000):
         part = cases[b:b + 40000]
@@ -31,7 +84,7 @@ def run(tier):
         for i, clause in fails:
             c = part[i]
             who, _, cl = clause.partition(':')
-            rep.violation('cmio:%s:%s:%s' % (c['key'].split('/')[0], who, cl),
+            rep.violation('cmio%s:%s:%s:%s' % ('128' if c['m128'] else '', c['key'].split('/')[0], who, cl),
                           '%s at PC=%d T=%d (frame pos %d): %s %s; dT py=%d pycm=%d ccm=%d'
                           % (c['key'], c['r'][24], c['r'][25], c['r'][25] % c['frame'], who, cl,
                              c['obs'][0]['r'][25] - c['r'][25], c['obs'][1]['r'][25] - c['r'][25], c['obs'][2]['r'][25] - c['r'][25]), c)
@@ -46,7 +99,13 @@ def run(tier):
         raise MachineryError('vacuous C19 run: only %d of %d cases were delayed' % (delayed, len(cases)))
     rep.sample({k: cases[0][k] for k in ('key', 'r', 'ov', 'inv')})
     rep.rule = ('every opcode slot x PC/pointer/port/IR placements in contended, uncontended and ROM memory x frame positions '
-                '(all phases around the first and last contended T, line starts/ends, border); distinct_nontrivial = distinct '
-                '(slot, observed delay) with delay > 0')
+                '(all phases around the first and last contended T, line starts/ends, border) on the 48K layout and on the 128K '
+                'layout with odd and even banks at 0xC000 (paging locked); wait-state tables of both machines enumerated for every '
+                'frame position by TLC (Python tables + delays observed on the Python and C simulators); distinct_nontrivial = '
+                'distinct (slot, observed delay) with delay > 0')
+    rep.exhaustive = False
+    rep.assumptions = ['Z80Bus.tla transcribes the documented M-cycle breakdown and the ULA wait pattern; OTIR/OTDR internal-cycle '
+                       'address accepted in both readings', 'paging is locked in the 128K cases so that the memory map is constant '
+                       'during the step (paging itself is C08)']
     rmworkdir('c19')
     return rep.finish()
